@@ -75,7 +75,11 @@ func formatFSM(format string, a []cty.Value) (string, error) {
 		verb.ArgNum = 0
 	}
 	action argidx_num {
-		verb.ArgNum = (10 * verb.ArgNum) + (int(fc) - '0')
+		// An index this large is out of range for any argument list, so
+		// stop accumulating digits rather than let the integer overflow.
+		if verb.ArgNum < 1<<24 {
+			verb.ArgNum = (10 * verb.ArgNum) + (int(fc) - '0')
+		}
 	}
 
 	action has_width {
